@@ -132,3 +132,22 @@ package vuego
 //@   ensures C17.pool.len.new: len(s.pooled) == len(s.stack)
 //@   ensures C10+C17.pool.inv.new: forall i int :: 0 <= i && i < len(s.pooled) && i < len(s.stack) && s.pooled[i] ==> fromPool(s.stack[i])
 //@   ensures C17.new.nil: root == nil ==> fresh(s.stack[0]) && forall k string :: !(k in s.stack[0])
+
+//@ spec func envHas(s *Stack, k string, upto int) bool {
+//@   lookupIdx(s, k, upto - 1) >= 0 || (s.rootData != nil && rootHas(s.rootData, k)) }
+//@ spec func envGet(s *Stack, k string, upto int) Val {
+//@   lookupIdx(s, k, upto - 1) >= 0 ? s.stack[lookupIdx(s, k, upto - 1)][k] : rootGet(s.rootData, k) }
+
+//@ func (s *Stack) EnvMap() (r)
+//@   modifies nothing
+//@   ensures C08+C17.agree: fresh(r) && forall k string :: ((k in r) == envHas(s, k, len(s.stack))) && ((k in r) ==> r[k] == envGet(s, k, len(s.stack)))
+//@   loop 0 invariant C17.env.outer: 0 <= i && i <= len(s.stack) && fresh(result) && result != nil &&
+//@     forall k string :: ((k in result) == envHas(s, k, i)) && ((k in result) ==> result[k] == envGet(s, k, i))
+//@   loop 1 invariant C17.env.inner: 0 <= i && i < len(s.stack) && fresh(result) && result != nil &&
+//@     forall k string :: (visited(k) ==> (k in s.stack[i]) && (k in result) && result[k] == s.stack[i][k]) &&
+//@       (!visited(k) ==> ((k in result) == envHas(s, k, i)) && ((k in result) ==> result[k] == envGet(s, k, i)))
+
+//@ func (s *Stack) Copy() (c)
+//@   modifies nothing
+//@   ensures C17.copy.fresh: fresh(c) && len(c.stack) == 1 && fresh(c.stack[0]) && c.rootData == s.rootData
+//@   ensures C17.copy.equal: forall k string :: ((k in c.stack[0]) == envHas(s, k, len(s.stack))) && ((k in c.stack[0]) ==> c.stack[0][k] == envGet(s, k, len(s.stack)))
